@@ -435,27 +435,7 @@ def _cov_finalizer(df, cols, std=False):
     return pd.Series(vals, index=index)
 
 
-def _mul_cols(df, cols):
-    """Internal function to be used with apply to multiply
-    each column in a dataframe by every other column
-
-    a b c -> a*a, a*b, b*b, b*c, c*c
-    """
-    _df = df.__class__()
-    for i, j in it.combinations_with_replacement(cols, 2):
-        col = f"{i}{j}"
-        _df[col] = df[i] * df[j]
-
-    # Fix index in a groupby().apply() context
-    # https://github.com/dask/dask/issues/8137
-    # https://github.com/pandas-dev/pandas/issues/43568
-    # Make sure index dtype is int (even if _df is empty)
-    # https://github.com/dask/dask/pull/9701
-    _df.index = np.zeros(len(_df), dtype=int)
-    return _df
-
-
-def _cov_chunk(df, *by, numeric_only=no_default):
+def _cov_chunk(df, *by, numeric_only=no_default, observed=None, dropna=None):
     """Covariance Chunk Logic
 
     Parameters
@@ -492,19 +472,25 @@ def _cov_chunk(df, *by, numeric_only=no_default):
         by = [col_mapping[k] for k in by]
         cols = cols.difference(pd.Index(by))
 
-    g = _groupby_raise_unaligned(df, by=by)
+    dropna = {"dropna": dropna} if dropna is not None else {}
+    observed = {"observed": observed} if observed is not None else {}
+    g = _groupby_raise_unaligned(df, by=by, **observed, **dropna)
     x = g.sum(**numeric_only_kwargs)
 
-    include_groups = {"include_groups": False} if PANDAS_GE_220 else {}
-    mul = g.apply(_mul_cols, cols=cols, **include_groups).reset_index(
-        level=-1, drop=True
+    # sums of the products of every pair of columns, grouped like ``x`` (also
+    # for a partition without any group)
+    mul = df.__class__(
+        {f"{i}{j}": df[i] * df[j] for i, j in it.combinations_with_replacement(cols, 2)},
+        index=df.index,
     )
+    keys = [k if is_series_like(k) else df[k] for k in by]
+    mul = mul.groupby(keys, **observed, **dropna).sum()
 
     n = g[x.columns].count().rename(columns=lambda c: f"{c}-count")
     return (x, mul, n, col_mapping)
 
 
-def _cov_agg(_t, levels, ddof, std=False, sort=False):
+def _cov_agg(_t, levels, ddof, std=False, sort=False, observed=None, dropna=None):
     # sometime we get a series back from concat combiner
     t = list(_t)
 
@@ -512,12 +498,15 @@ def _cov_agg(_t, levels, ddof, std=False, sort=False):
     cols = sums[0].columns
     col_mapping = col_mappings[-1]
 
-    total_sums = concat(sums).groupby(level=levels, sort=sort).sum()
-    total_muls = concat(muls).groupby(level=levels, sort=sort).sum()
-    total_counts = concat(counts).groupby(level=levels).sum()
+    dropna = {"dropna": dropna} if dropna is not None else {}
+    observed = {"observed": observed} if observed is not None else {}
+    kwargs = {**observed, **dropna}
+    total_sums = concat(sums).groupby(level=levels, sort=sort, **kwargs).sum()
+    total_muls = concat(muls).groupby(level=levels, sort=sort, **kwargs).sum()
+    total_counts = concat(counts).groupby(level=levels, **kwargs).sum()
     result = (
         concat([total_sums, total_muls, total_counts], axis=1)
-        .groupby(level=levels)
+        .groupby(level=levels, **kwargs)
         .apply(_cov_finalizer, cols=cols, std=std)
     )
 
